@@ -208,7 +208,15 @@ class Tensor:
         return Tensor(self.shape, lambda idx: _lift(f(Sym(self.fn(idx)))))
 
     def astype(self, dt):
-        return self
+        from .sym import cast_to, dtype_kind
+
+        if dtype_kind(dt) is None:
+            return self
+        src = self.fn
+        probe = cast_to(Sym(src(tuple(_IDX[: self.ndim]))), dt)
+        if z3.eq(probe.e, src(tuple(_IDX[: self.ndim]))):
+            return self
+        return Tensor(self.shape, lambda idx: cast_to(Sym(src(idx)), dt).e)
 
     # -- indexing ----------------------------------------------------------------------------------
     def __getitem__(self, key):
@@ -550,6 +558,20 @@ class _AtKey:
 
     def set(self, v):
         t, key = self.t, self.key
+        # writing into an array converts the value to the ARRAY's dtype (a float written into an integer buffer is
+        # truncated)
+        if t.elem_sort() == z3.IntSort():
+            from .sym import cast_to
+
+            if isinstance(v, Tensor) and v.elem_sort() == z3.RealSort():
+                v = v.astype("int")
+            elif isinstance(v, Sym) and v.e.sort() == z3.RealSort():
+                v = cast_to(v, "int")
+        elif t.elem_sort() == z3.RealSort():
+            if isinstance(v, Tensor) and v.elem_sort() == z3.IntSort():
+                v = v.astype("float")
+            elif isinstance(v, Sym) and v.e.sort() == z3.IntSort():
+                v = Sym(z3.ToReal(v.e))
         if isinstance(key, tuple) or t.ndim < 1:
             raise EngineLimit(".at[tuple].set")
         n = _dterm(t.shape[0])
